@@ -43,6 +43,7 @@ type GenOpts struct {
 	WildLits    bool // literal texts with escapes / non-ASCII (for grammars that are printed, not parsed)
 	Embeds      bool // Go-source rendering: put leading fields into an embedded named struct
 	DeepEmbeds  bool // StructOf rendering: leading fields in a struct embedded by value 1-4 levels deep
+	Statics     bool // one grammar in twenty is a hand-written one whose production contains itself directly (static.go)
 	Parseables  bool // user-implemented productions (participle.Parseable)
 }
 
@@ -54,6 +55,7 @@ type genCtx struct {
 	nullP []bool // nullability of finished productions
 	stack []int  // productions under construction
 	nodes int
+	force map[int][]int // union -> productions that must be among its members
 }
 
 func (c *genCtx) draw(lo, hi int, label string) int { return rapid.IntRange(lo, hi).Draw(c.t, label) }
@@ -249,7 +251,11 @@ func (c *genCtx) gen(depth int, nn, incap bool) *Expr {
 			return c.leaf()
 		}
 		if c.o.Parseables && c.draw(0, 3, "parseable") == 0 {
-			return &Expr{Kind: KPars, Prod: -1, Uni: -1}
+			e := &Expr{Kind: KPars, Prod: -1, Uni: -1}
+			if c.draw(0, 2, "rewinding") == 0 {
+				e.S = "R" // the rewinding kind (PTokR)
+			}
+			return e
 		}
 		if e := c.subProd(nn, depth); e != nil {
 			return e
@@ -446,6 +452,19 @@ func (c *genCtx) simpleSeq(depth int) *Expr {
 	}
 	for i := 0; i < n; i++ {
 		if i == subAt {
+			if c.nu > 1 && c.draw(0, 2, "trapuni") == 0 {
+				// through a union the nested node may be of the enclosing production's own type (the reference
+				// follows a consumed token, so this is not left recursion)
+				u := c.draw(1, c.nu-1, "trapunion")
+				if rapid.Bool().Draw(c.t, "trapself") {
+					if c.force == nil {
+						c.force = map[int][]int{}
+					}
+					c.force[u] = append(c.force[u], c.cur()) // the enclosing production becomes a member of that union
+				}
+				kids = append(kids, SubU(u))
+				continue
+			}
 			if s := c.subProd(true, depth); s != nil {
 				kids = append(kids, s)
 				continue
@@ -528,7 +547,22 @@ func (c *genCtx) trap(depth int, nn bool) *Expr {
 	if c.o.NameElided && len(c.g.Elide) > 0 && c.draw(0, 2, "elidedtrap") == 0 {
 		kind = 8
 	}
+	if c.nu > 1 && c.draw(0, 7, "selfnest") == 0 {
+		kind = 10
+	}
 	switch kind {
+	case 10:
+		// a nested node of the enclosing production's own type completes inside an alternative that is then
+		// abandoned: ( @a "(" @@U ")" | @a "(" @@U "]" | @b ) with the production itself a member of U
+		u := c.draw(1, c.nu-1, "trapunion")
+		if c.force == nil {
+			c.force = map[int][]int{}
+		}
+		c.force[u] = append(c.force[u], c.cur())
+		a, b := c.leaf(), c.leaf()
+		open, cl1 := Lit("("), Lit(")")
+		cl2 := c.otherLiteral(cl1)
+		return Alt(Seq(Cap(a), open, SubU(u), cl1), Seq(Cap(clone(a)), clone(open), SubU(u), cl2), Cap(b))
 	case 9:
 		// a failure deep inside a repeated item, followed by a tail that accepts any token: if the failure is
 		// swallowed anywhere on the way up, the tail mops up the rest and the parse wrongly succeeds
@@ -655,6 +689,9 @@ func assignFields(t *rapid.T, p *Prod, e *Expr, pi int) {
 			return
 		case KPars:
 			k := rapid.SampledFrom([]FKind{FPars, FParsV, FParss, FCust, FCusts}).Draw(t, "pk")
+			if e.S == "R" {
+				k = FParsR
+			}
 			n := len(p.Fields)
 			if n > 0 && p.Fields[n-1].Kind == k && rapid.Bool().Draw(t, "reuse") {
 				e.Field = n - 1
@@ -705,6 +742,14 @@ func GenGrammar(t *rapid.T, o GenOpts) *Grammar {
 	if o.MaxDepth == 0 {
 		o.MaxDepth = 4
 	}
+	if o.Statics && rapid.IntRange(0, 19).Draw(t, "static") == 0 {
+		sg := StaticGrammars()
+		g := sg[rapid.IntRange(0, len(sg)-1).Draw(t, "staticgrammar")]
+		g.Lookahead = rapid.SampledFrom(Lookaheads).Draw(t, "k")
+		es := g.Prof().ElideSets
+		g.Elide = es[rapid.IntRange(0, len(es)-1).Draw(t, "elideset")]
+		return g
+	}
 	g := &Grammar{Lookahead: rapid.SampledFrom(Lookaheads).Draw(t, "k")}
 	if rapid.Bool().Draw(t, "ci") {
 		g.CI = []string{"Ident"}
@@ -744,6 +789,12 @@ func GenGrammar(t *rapid.T, o GenOpts) *Grammar {
 		for i := 0; i < n; i++ {
 			m := nonNull[rapid.IntRange(0, len(nonNull)-1).Draw(t, "member")]
 			if !seen[m] {
+				seen[m] = true
+				g.Unions[u].Members = append(g.Unions[u].Members, m)
+			}
+		}
+		for _, m := range c.force[u] {
+			if !seen[m] && m < len(c.nullP) && !c.nullP[m] {
 				seen[m] = true
 				g.Unions[u].Members = append(g.Unions[u].Members, m)
 			}
@@ -853,7 +904,11 @@ func Sample(t *rapid.T, g *Grammar, e *Expr, out *[]VTok, fuel *int) {
 			Sample(t, g, g.Prods[e.Prod].Expr, out, fuel)
 		}
 	case KNeg, KPars:
-		*out = append(*out, rapid.SampledFrom(g.Prof().Vocab).Draw(t, "negtok"))
+		v := rapid.SampledFrom(g.Prof().Vocab).Draw(t, "negtok")
+		if e.Kind == KPars && e.S == "R" && strings.ContainsAny(v.Value, "bB") {
+			v = VTok{Type: "Int", Value: "12"} // the rewinding production does not take tokens spelled with a b
+		}
+		*out = append(*out, v)
 	}
 }
 
